@@ -166,7 +166,16 @@ fn checked_start_time(data: &Data, start: Bound<u64>) -> Result<Timestamp, Error
     let range = data.range().ok_or(Error::EmptyFile)?;
     let start_ts = match start {
         Bound::Included(ts) => ts,
-        Bound::Excluded(ts) => ts - 1,
+        // the first timestamp that satisfies an exclusive lower bound
+        Bound::Excluded(ts) => match ts.checked_add(1) {
+            Some(ts) => ts,
+            None => {
+                return Err(Error::StartAfterData {
+                    requested: ts,
+                    data_range: range,
+                })
+            }
+        },
         Bound::Unbounded => *range.start(),
     };
     let start_ts = start_ts.max(*range.start());
